@@ -4,6 +4,7 @@ import (
 	"net"
 	"sync"
 	"testing"
+	"time"
 
 	"github.com/codelaboratoryltd/bng/pkg/dhcpv6"
 	"go.uber.org/zap"
@@ -145,16 +146,22 @@ func newDHCP6(cfgSel byte) *dhcpv6.Server {
 	if err != nil {
 		panic("harness: " + err.Error())
 	}
+	s.VerifC09SetConn(v6Socket())
+	return s
+}
+
+// v6Socket is the socket replies are written to: they are built, serialised and written; the peer is a link-local
+// address on lo, for which sendto fails at once with ENETUNREACH (logged by sendResponse), so no packet leaves and
+// nobody else's socket is hit.
+func v6Socket() *net.UDPConn {
 	v6ConnOnce.Do(func() {
-		// replies are built, serialised and written; the peer is a link-local address on lo, for which sendto
-		// fails at once with ENETUNREACH (logged by sendResponse), so no packet leaves and nobody else's socket is hit
+		var err error
 		v6Conn, err = net.ListenUDP("udp6", &net.UDPAddr{IP: net.IPv6loopback, Port: 0})
 		if err != nil {
 			panic("harness: " + err.Error())
 		}
 	})
-	s.VerifC09SetConn(v6Conn)
-	return s
+	return v6Conn
 }
 
 var (
@@ -206,12 +213,61 @@ func init() {
 
 	// dhcp6-handler — case layout: [0] prelude (0 none; 1 Solicit+Request by client A → lease; 2 rapid-commit Solicit
 	// by client A → lease; 3 lease then Release), [1] server configuration (bit0 no address pool, bit1 no prefix
-	// pool, bit2 no DNS), rest = raw UDP payload.
+	// pool, bit2 no DNS), [2] 0 = the fixed prelude of [0], otherwise [3..4] describe a generated history (d6Shape),
+	// rest = raw UDP payload.
 	register(&target{
-		name: "dhcp6-handler",
+		name: "dhcp6-handler", nsel: d6Sel,
 		run: func(data []byte, c *caseInfo) {
-			sel, raw := split(data, 2)
-			s := newDHCP6(sel[1])
+			sel, raw := split(data, d6Sel)
+			var s *dhcpv6.Server
+			final := func() {
+				if s.VerifC09LeaseCount() > 0 {
+					c.class("state:lease-held")
+				} else {
+					c.class("state:no-lease")
+				}
+				m, err := dhcpv6.ParseMessage(raw)
+				if err != nil {
+					c.class("parse-error")
+					return
+				}
+				c.nt = true
+				c.class("passes-first-length-check")
+				if m.Type >= 1 && m.Type <= 11 && m.Type != 2 && m.Type != 7 && m.Type != 10 {
+					c.class("msg:handled-type")
+					if m.GetOption(dhcpv6.OptClientID) != nil {
+						c.class("msg:has-client-id")
+					}
+				}
+				s.VerifC09Handle(m, v6Peer)
+				if s.VerifC09LeaseCount() > 0 {
+					c.class("after:lease-held")
+				}
+			}
+			if sel[2] != 0 {
+				c.class("prefix:generated")
+				sh := d6Shape{sel[3], sel[4]}
+				short := sh.b&4 != 0
+				valid := 7200 * time.Second
+				if short {
+					valid = 120 * time.Second
+					c.class("history:short-lifetimes")
+				}
+				v6Socket()
+				body := func() {
+					s = newDHCP6Cfg(sel[1], short)
+					dhcp6History(s, sh, valid, c)
+					final()
+				}
+				if sh.b&3 != 0 {
+					inBubble(body) // virtual time
+				} else {
+					body()
+				}
+				return
+			}
+			c.class("prefix:fixed")
+			s = newDHCP6(sel[1])
 			deliver := func(b []byte) {
 				if m, err := dhcpv6.ParseMessage(b); err == nil {
 					s.VerifC09Handle(m, v6Peer)
@@ -228,41 +284,23 @@ func init() {
 				deliver(v6Request)
 				deliver(mkV6(8, v6Client, v6Server))
 			}
-			if s.VerifC09LeaseCount() > 0 {
-				c.class("state:lease-held")
-			} else {
-				c.class("state:no-lease")
-			}
-			m, err := dhcpv6.ParseMessage(raw)
-			if err != nil {
-				c.class("parse-error")
-				return
-			}
-			c.nt = true
-			c.class("passes-first-length-check")
-			if m.Type >= 1 && m.Type <= 11 && m.Type != 2 && m.Type != 7 && m.Type != 10 {
-				c.class("msg:handled-type")
-				if m.GetOption(dhcpv6.OptClientID) != nil {
-					c.class("msg:has-client-id")
-				}
-			}
-			s.VerifC09Handle(m, v6Peer)
-			if s.VerifC09LeaseCount() > 0 {
-				c.class("after:lease-held")
-			}
+			final()
 		},
 		gen: func(rt *rapid.T) []byte {
-			return withSel(genPacket(rt, bldV6Message, v6Hostile), selByte(rt, 4, "prelude"), selByte(rt, 8, "cfg"))
+			return withSel(genPacket(rt, bldV6Message, v6Hostile), append([]byte{selByte(rt, 4, "prelude"), selByte(rt, 8, "cfg")}, genD6Shape(rt)...)...)
 		},
 		seeds: func() [][]byte {
 			var o [][]byte
 			for _, k := range v6Hostile {
-				o = append(o, withSel(k, 0, 0), withSel(k, 1, 0), withSel(k, 1, 3))
+				o = append(o, withSel(k, 0, 0, 0, 0, 0), withSel(k, 1, 0, 0, 0, 0), withSel(k, 1, 3, 0, 0, 0),
+					withSel(k, 0, 2, 1, 0x01, 0x00), withSel(k, 0, 0, 1, 0x94, 0x0a), withSel(k, 0, 1, 1, 0x12, 0x27))
 			}
 			return o
 		},
 	})
 }
+
+const d6Sel = 5
 
 func TestPropDHCPv6Parsers(t *testing.T) {
 	runProp(t, 10000, 200000, "dhcpv6.ParseMessage", "dhcpv6.ParseOptions", "dhcpv6.ParseIANA", "dhcpv6.ParseIAPD", "dhcpv6.ParseIAAddress", "dhcpv6.ParseIAPrefix", "dhcpv6.ParseDUID")
